@@ -422,22 +422,35 @@ def expected_streams(case):
 def make_cmd_action(case, workdir):
     action, task, exc = _mods()
     script = cmd_script(case, workdir)
-    save_out = KEYS[case['save_out']] if case.get('save_out') is not None else None
+    kw = {'save_out': KEYS[case['save_out']] if case.get('save_out') is not None else None}
+    if case.get('buffering'):
+        kw['buffering'] = case['buffering']
     expand = case.get('expand', 'ok')
     form = case.get('form', 'str')
     if expand == 'badkey':
-        return action.CmdAction(script + ' # %(nokey)s', save_out=save_out)
+        return action.CmdAction(script + ' # %(nokey)s', **kw)
     if expand == 'badelem':
-        return action.CmdAction(['sh', '-c', script, 7], shell=False, save_out=save_out)
+        return action.CmdAction(['sh', '-c', script, 7], shell=False, **kw)
     if expand == 'callable_raises':
         def mk():
             raise ValueError('cannot build the command')
-        return action.CmdAction(mk, save_out=save_out)
+        return action.CmdAction(mk, **kw)
     if form == 'list':
-        return action.CmdAction(['sh', '-c', script], shell=False, save_out=save_out)
+        return action.CmdAction(['sh', '-c', script], shell=False, **kw)
     if form == 'callable':
-        return action.CmdAction(lambda: script, save_out=save_out)
-    return action.CmdAction(script, save_out=save_out)
+        return action.CmdAction(lambda: script, **kw)
+    return action.CmdAction(script, **kw)
+
+
+def chunkwise_decode(data, n):
+    """what decoding every n-byte read on its own gives (the known defect F-C17c)"""
+    return ''.join(data[i:i + n].decode('utf-8', 'replace') for i in range(0, len(data), n))
+
+
+def stream_bytes(case):
+    out = b''.join(chunk_bytes(s) for c, s in case.get('chunks', []) if c == 'o')
+    err = b''.join(chunk_bytes(s) for c, s in case.get('chunks', []) if c == 'e')
+    return out, err
 
 
 def run_cmd(case):
